@@ -481,6 +481,7 @@ func C11(r *h.Run) {
 	}
 
 	errorMetaWritten(r, rng, true, "metadata/error-meta-written")
+	c11LongValues(r, rng.Fork("long-values"))
 
 	// ---- binary header helpers ----
 	for a := 0; a < 256; a++ {
@@ -705,6 +706,102 @@ func errorMetaWritten(r *h.Run, rng *h.Rng, modelCase bool, failKey string) {
 			want := append(append([]string(nil), own.Values(k)...), vs...)
 			if got := obs.Values(k); !sublist(want, got) {
 				r.Fail(h.Failure{Key: failKey, Family: "error_meta_written", What: "an application key of the error's metadata is not written after the handler's own values, unchanged and in order", Input: in, Expected: map[string]any{k: want}, Actual: got})
+			}
+		}
+	}
+}
+
+// c11LongValues: one long value (tens to hundreds of KiB: a serialised token, a -Bin blob) as
+// response header, response trailer and error metadata, over the in-process transport (no
+// net/http size limits in the way): visible to the client unchanged, in every protocol.
+func c11LongValues(r *h.Run, rng *h.Rng) {
+	lengths := []int{4000, 65523, 70000, 200000}
+	if r.Thorough() {
+		lengths = append(lengths, 65535, 65536, 65537, 1<<20 + 1)
+	}
+	for _, proto := range []string{"connect", "grpc", "grpcweb"} {
+		for li, n := range lengths {
+			for _, outcome := range []string{"success", "error-after"} {
+				if !r.Thorough() && (li+len(outcome))%2 == 0 && proto != "grpcweb" {
+					continue
+				}
+				b := make([]byte, n)
+				for i := range b {
+					b[i] = "abcdefghijklmnopqrstuvwxyzABCDEFGHIJKLMNOPQRSTUVWXYZ0123456789+/"[rng.Intn(64)]
+				}
+				long := string(b)
+				mux := http.NewServeMux()
+				mux.Handle("/verif.Svc/M", connect.NewServerStreamHandler("/verif.Svc/M", func(_ context.Context, _ *connect.Request[h.Raw], s *connect.ServerStream[h.Raw]) error {
+					s.ResponseHeader().Set("X-Long-Header", long)
+					s.ResponseTrailer().Set("X-Long-Trailer", long)
+					s.ResponseTrailer().Set("X-Short", "s")
+					_ = s.Send(&h.Raw{B: []byte("m")})
+					if outcome == "success" {
+						return nil
+					}
+					e := connect.NewError(connect.CodeAborted, errors.New("no"))
+					e.Meta().Set("X-Long-Meta", long)
+					return e
+				}, connect.WithCodec(h.ToyCodec{})))
+				copts := []connect.ClientOption{connect.WithCodec(h.ToyCodec{})}
+				switch proto {
+				case "grpc":
+					copts = append(copts, connect.WithGRPC())
+				case "grpcweb":
+					copts = append(copts, connect.WithGRPCWeb())
+				}
+				var hdr, trl, meta http.Header
+				var callErr error
+				msgs := 0
+				p := safely(func() {
+					st, err := connect.NewClient[h.Raw, h.Raw](&h.LocalClient{Handler: mux}, "http://verif.local/verif.Svc/M", copts...).CallServerStream(context.Background(), connect.NewRequest(&h.Raw{B: []byte("q")}))
+					if err != nil {
+						callErr = err
+						return
+					}
+					for st.Receive() {
+						msgs++
+					}
+					callErr = st.Err()
+					hdr, trl = st.ResponseHeader(), st.ResponseTrailer()
+					_ = st.Close()
+				})
+				in := map[string]any{"proto": proto, "kind": "server", "outcome": outcome, "value_length": n, "keys": "X-Long-Header (header), X-Long-Trailer and X-Short (trailers), X-Long-Meta (error metadata)"}
+				r.Eval("long_values", fmt.Sprint(proto, n, outcome))
+				if p != nil {
+					r.Fail(h.Failure{Key: "metadata/panic", Family: "long_values", What: fmt.Sprint("panic: ", p), Input: in})
+					continue
+				}
+				var ce *connect.Error
+				if errors.As(callErr, &ce) {
+					meta = ce.Meta()
+				}
+				brief := func(hd http.Header, k string) string {
+					vs := hd.Values(k)
+					if len(vs) == 0 {
+						return "absent"
+					}
+					return fmt.Sprintf("%d value(s), first of %d bytes, equal=%v", len(vs), len(vs[0]), vs[0] == long)
+				}
+				obs := map[string]any{"messages": msgs, "error": fmt.Sprint(callErr)}
+				if len(obs["error"].(string)) > 300 {
+					obs["error"] = obs["error"].(string)[:300] + "..."
+				}
+				r.Sample("long_values", map[string]any{"in": in, "observed": obs})
+				bad := ""
+				switch {
+				case outcome == "success" && callErr != nil:
+					bad = "a call the handler completed fails on the client"
+				case outcome == "success" && (hdr.Get("X-Long-Header") != long || trl.Get("X-Long-Trailer") != long || trl.Get("X-Short") != "s"):
+					bad = "header / trailers not visible unchanged: header " + brief(hdr, "X-Long-Header") + ", trailer " + brief(trl, "X-Long-Trailer") + ", short trailer " + brief(trl, "X-Short")
+				case outcome != "success" && (callErr == nil || connect.CodeOf(callErr) != connect.CodeAborted):
+					bad = "the handler's error (aborted) does not arrive"
+				case outcome != "success" && (meta.Get("X-Long-Meta") != long || meta.Get("X-Long-Trailer") != long):
+					bad = "error metadata / trailers not in the error's metadata: " + brief(meta, "X-Long-Meta") + ", trailer " + brief(meta, "X-Long-Trailer")
+				}
+				if bad != "" {
+					r.Fail(h.Failure{Key: "metadata/long-value", Family: "long_values", What: bad, Input: in, Actual: obs})
+				}
 			}
 		}
 	}
